@@ -385,7 +385,9 @@ func rulePDF417Encoder(c *Ctx) {
 			})
 			if mk != nil {
 				c.expectPoly("C13-PDF-PADDING", "pdf417.getPadding/count", mk.Pos(), n, mk.Len, "cols - "+T+"%cols")
-				c.expectCond("C13-PDF-PADDING", "pdf417.getPadding/iff", mk.Pos(), n.ReachCond(fn, nil, mk.Block()), T+"%cols > 0")
+				// (codeword counts are not negative, so neither is the remainder)
+				nonneg := MustRefCond(T + "%cols >= 0")
+				c.expectCondC("C13-PDF-PADDING", "pdf417.getPadding/iff", mk.Pos(), cAnd(nonneg, n.ReachCond(fn, nil, mk.Block())), cAnd(nonneg, MustRefCond(T+"%cols > 0")))
 				eachInstr(fn, func(b *ssa.BasicBlock, ins ssa.Instruction) {
 					if st, ok := ins.(*ssa.Store); ok {
 						if ia, ok := st.Addr.(*ssa.IndexAddr); ok && ia.X == ssa.Value(mk) {
@@ -437,7 +439,8 @@ func rulePDF417Encoder(c *Ctx) {
 					k, isK := n.Norm(el[0]).IsConst()
 					c.Check("C13-PDF-PADDING", "pdf417.getPadding/value", call.Pos(), isK && k == pc, fmt.Sprint(pc), n.Norm(el[0]).String())
 					c.expectPoly("C13-PDF-PADDING", "pdf417.getPadding/count", call.Pos(), n, call.Common().Args[1], "cols - "+T+"%cols")
-					c.expectCond("C13-PDF-PADDING", "pdf417.getPadding/iff", call.Pos(), n.ReachCond(fn, nil, call.Block()), T+"%cols > 0")
+					nonneg := MustRefCond(T + "%cols >= 0")
+					c.expectCondC("C13-PDF-PADDING", "pdf417.getPadding/iff", call.Pos(), cAnd(nonneg, n.ReachCond(fn, nil, call.Block())), cAnd(nonneg, MustRefCond(T+"%cols > 0")))
 				})
 				if !found {
 					c.Check("C13-PDF-PADDING", "pdf417.getPadding/make", fn.Pos(), false, "padding slice", "none")
